@@ -11,8 +11,8 @@
 (*        maxinfl  : bound of the in-flight queues, ttl : seconds,         *)
 (*        writer2  : client 2 only writes and reads plainly,               *)
 (*        lite     : without Contains, Iter, Len, SetTtl, Reopen,          *)
-(*        ttl1     : SetTtl on key k1 only]                                *)
-(* so that MC_Store can explore one kind per run and JudgeC20 can replay   *)
+(*        ttl1     : SetTtl on key k1 only, nkeys : 1 | 2 keys in use]     *)
+(* so that MC_Store can explore all kinds in one run and JudgeC20 can replay*)
 (* paths of all kinds in one run.  The state is ONE record s; every store  *)
 (* operation is a function  Step(P, s, o)  from state to state with the    *)
 (* specified result  Expected(P, s, o)  computed from the PRE-state.       *)
@@ -189,6 +189,7 @@ Enabled(P, s, o) ==
     /\ o.c \in ClientsOf(P)
     /\ (o.c = 2 /\ P.writer2 => o.op \in {"Set", "NestedSet", "Append", "Del", "SetTtl", "Get"})
     /\ (P.lite => o.op \notin {"Contains", "Iter", "Len", "SetTtl", "Reopen"})
+    /\ (P.nkeys = 1 => o.k \in {"", "k1"})
     /\ CASE o.op = "Set" -> o.v \in 1..3
          [] o.op = "NestedSet" -> P.shape = "dict" /\ <<o.f, o.v>> \in NestedArgs
          [] o.op = "Append" -> P.shape = "list" /\ o.v \in Scalars /\ Len(Value(s, o.k)) < P.maxlen
